@@ -7,7 +7,6 @@ import (
 	"encoding/json"
 	"fmt"
 	"os"
-	"path/filepath"
 	"testing"
 	"time"
 
@@ -47,11 +46,10 @@ func TestCheck(t *testing.T) {
 		})
 }
 
-// replay re-executes a violation artefact. A case of the size/configuration family is the scenario with
-// its default schedule (every recorded choice is entry 0): it is re-executed from the scenario name
-// alone, so that the replay still works when the code under test has changed and the default schedule
-// has a different shape (e.g. one more produce request). A case with deviations is replayed choice by
-// choice by the engine (a divergence there is an engine error, exit 3, as for every GX check).
+// replay re-executes a violation artefact: exactly the recorded choice list when it still applies to the
+// tree under test (the engine's ReplayFile); when it does not (the tree changed and the scenario's
+// executions have a different shape) the scenario is re-explored with at most as many deviations as the
+// recorded schedule had, and the verdict is whether any of those executions still violates C16.
 func replay(t *testing.T, path string) int {
 	b, err := os.ReadFile(path)
 	if err != nil {
@@ -72,18 +70,74 @@ func replay(t *testing.T, path string) int {
 			deviations++
 		}
 	}
-	if deviations > 0 || len(v.Replay.Choices) == 0 || os.Getenv("VERIF_REPLAY_N") != "" {
+	if os.Getenv("VERIF_REPLAY_N") != "" {
 		return gx.ReplayFile(t, path)
 	}
-	fmt.Printf("default-schedule case: re-executing scenario %s from its name\n", v.Replay.Scenario)
-	dir := filepath.Join(ev.Root(), ".build", "C16")
-	_ = os.MkdirAll(dir, 0o755)
-	tmp := filepath.Join(dir, fmt.Sprintf("replay-%d.json", os.Getpid()))
-	nb, _ := json.Marshal(map[string]interface{}{"property": v.Property, "replay": gx.Replay{Scenario: v.Replay.Scenario}})
-	if err := os.WriteFile(tmp, nb, 0o644); err != nil {
+	sc, err := gx.Lookup(v.Replay.Scenario)
+	if err != nil {
 		fmt.Println("ENGINE-ERROR", err)
 		return 3
 	}
-	defer os.Remove(tmp)
-	return gx.ReplayFile(t, tmp)
+	// does the recorded schedule still apply to this tree?
+	if r := gx.Execute(t, sc, v.Replay.Choices); r.EngineErr == "" || len(v.Replay.Choices) == 0 {
+		return gx.ReplayFile(t, path)
+	}
+	// The recorded choice list no longer fits (the code under test changed and the executions of this
+	// scenario have a different shape, e.g. one more produce request). The case is then the scenario with
+	// every schedule of at most as many deviations as the recorded one had: re-explore exactly that.
+	fmt.Printf("the recorded schedule does not apply to this tree any more; re-exploring scenario %s with <= %d deviations\n", v.Replay.Scenario, deviations)
+	n := 0
+	var bad *gx.Result
+	var explore func(prefix []gx.Choice) bool
+	explore = func(prefix []gx.Choice) bool {
+		r := gx.Execute(t, sc, prefix)
+		n++
+		if r.EngineErr != "" {
+			fmt.Println("ENGINE-ERROR", r.EngineErr)
+			bad = r
+			return false
+		}
+		for _, x := range r.Outcome.Violations {
+			if x.Property == "C16" {
+				bad = r
+				return false
+			}
+		}
+		d := 0
+		for i := 0; i < len(prefix); i++ {
+			d += r.Costs[i][r.Choices[i].I]
+		}
+		for i := len(prefix); i < len(r.Choices); i++ {
+			for alt := range r.Points[i] {
+				if alt == r.Choices[i].I || d+r.Costs[i][alt] > deviations {
+					continue
+				}
+				np := append(append([]gx.Choice{}, r.Choices[:i]...), gx.Choice{I: alt, L: r.Points[i][alt]})
+				if !explore(np) {
+					return false
+				}
+			}
+			d += r.Costs[i][r.Choices[i].I]
+		}
+		return true
+	}
+	explore(nil)
+	fmt.Printf("%d executions\n", n)
+	if bad == nil {
+		fmt.Println("no execution violates C16")
+		return 0
+	}
+	if bad.EngineErr != "" {
+		return 3
+	}
+	for i, c := range bad.Choices {
+		fmt.Printf("  %2d %s\n", i, c.L)
+	}
+	fmt.Printf("observation: %s\n%s", bad.Outcome.Obs, bad.Outcome.Detail)
+	for _, x := range bad.Outcome.Violations {
+		if x.Property == "C16" {
+			fmt.Printf("VIOLATION property=C16 replay=%s\n  signature=%s\n  %s\n", path, x.Signature, x.Message)
+		}
+	}
+	return 1
 }
